@@ -16,6 +16,7 @@ mod alloc;
 mod mutate;
 mod seeds;
 mod entrypoints;
+mod queries;
 mod worker;
 
 use mutate::{Case, Plan};
@@ -50,7 +51,7 @@ struct WorkerProc {
 
 #[derive(Debug, Clone)]
 enum Outcome {
-    Done { class: String, max_req: u64, cum: u64, peak: u64, micros: u64, msg: String },
+    Done { class: String, max_req: u64, cum: u64, peak: u64, micros: u64, ops: u64, msg: String },
     Alloc { size: u64, kind: String, site: String },
     Died { desc: String, sigkill: bool },
     Timeout,
@@ -201,9 +202,10 @@ fn run_in(slot: &mut Option<WorkerProc>, root: &std::path::Path, tag: &str, tid:
                         let cum = it.next().and_then(|s| s.parse().ok()).unwrap_or(0);
                         let peak = it.next().and_then(|s| s.parse().ok()).unwrap_or(0);
                         let micros = it.next().and_then(|s| s.parse().ok()).unwrap_or(0);
+                        let ops = it.next().and_then(|s| s.parse().ok()).unwrap_or(0);
                         let msg = it.next().unwrap_or("").to_string();
                         *slot = Some(w);
-                        return Outcome::Done { class, max_req, cum, peak, micros, msg };
+                        return Outcome::Done { class, max_req, cum, peak, micros, ops, msg };
                     }
                     Some("FATAL") => {
                         let m = it.next().unwrap_or("").to_string();
@@ -271,6 +273,10 @@ struct TStats {
     max_cum_ratio_x100: u64,
     max_micros: u64,
     total_micros: u64,
+    /// post-parse operations (queries on accepted structures, alternative entry points) executed
+    post_ops: u64,
+    /// calls in which at least one post-parse operation ran on a NON-seed input
+    post_ops_calls_mutants: u64,
 }
 
 impl TStats {
@@ -294,6 +300,8 @@ impl TStats {
         self.max_cum_ratio_x100 = self.max_cum_ratio_x100.max(o.max_cum_ratio_x100);
         self.max_micros = self.max_micros.max(o.max_micros);
         self.total_micros += o.total_micros;
+        self.post_ops += o.post_ops;
+        self.post_ops_calls_mutants += o.post_ops_calls_mutants;
     }
     fn to_json(&self) -> serde_json::Value {
         json!({
@@ -308,6 +316,8 @@ impl TStats {
             "largest_cumulative_over_input_len": self.max_cum_ratio_x100 as f64 / 100.0,
             "slowest_call_ms": self.max_micros as f64 / 1000.0,
             "mean_call_us": if self.inputs > 0 { self.total_micros / self.inputs } else { 0 },
+            "post_parse_ops": self.post_ops,
+            "mutant_calls_with_post_parse_ops": self.post_ops_calls_mutants,
         })
     }
 }
@@ -315,7 +325,7 @@ impl TStats {
 /// Error texts that mean "rejected at the door" (magic / signature / too short / not text).
 fn immediate_rejection(msg: &str) -> bool {
     let m = msg.to_ascii_lowercase();
-    ["magic", "signature", "too short", "too small", "unexpected end", "unexpectedeof", "failed to fill whole buffer", "utf-8", "utf8", "insufficient", "none (", "empty", "not enough", "truncated", "eof while parsing", "expected value at line 1 column 1"]
+    ["magic", "signature", "too short", "too small", "unexpected end", "unexpectedeof", "failed to fill whole buffer", "utf-8", "utf8", "insufficient", "none (", "empty", "not enough", "truncated", "eof while parsing", "expected value at line 1 column 1", "harness:"]
         .iter()
         .any(|p| m.contains(p))
 }
@@ -438,7 +448,11 @@ fn judge(sh: &Shared, st: &mut TStats, nontrivial: &mut Vec<u64>, tid: usize, ca
         }
     };
     match outcome {
-        Outcome::Done { class, max_req, cum, peak, micros, msg } => {
+        Outcome::Done { class, max_req, cum, peak, micros, ops, msg } => {
+            st.post_ops += ops;
+            if ops > 0 && differs && !is_seed {
+                st.post_ops_calls_mutants += 1;
+            }
             st.max_req = st.max_req.max(max_req);
             st.max_req_ratio_x100 = st.max_req_ratio_x100.max(max_req.saturating_mul(100) / in_len);
             st.max_peak = st.max_peak.max(peak);
@@ -574,6 +588,11 @@ fn post_process(family: &str, case: &mut Case, rng_bits: u64) {
     }
     if (family == "encoding") && rng_bits % 4 != 0 && seeds::encoding_fix_page_checksums(&mut case.data) {
         case.origin.push_str(" +page-checksums-fixed");
+    }
+    if family == "patch_index" && rng_bits % 4 != 0 {
+        // the header repeats the file length; an attacker keeps it consistent
+        seeds::patch_index_fix_data_size(&mut case.data);
+        case.origin.push_str(" +data-size-fixed");
     }
     if family == "mime" && rng_bits % 2 == 0 {
         const P: &[u8] = b"Checksum: ";
@@ -756,6 +775,14 @@ fn run(sh: &Shared, families: &Families) {
                         } else if target.family == "zbsdiff" && rng.chance(1, 3) {
                             let old = &seeds[rng.usize_below(seeds.len())].aux;
                             if rng.chance(1, 3) { Some(mutate::zbsdiff_one_hostile_field(&mut rng, old)) } else { Some(mutate::zbsdiff_structured(&mut rng, old)) }
+                        } else if target.family.ends_with("_filename") && rng.chance(3, 4) {
+                            Some(mutate::filename_case(&mut rng, seeds))
+                        } else if (target.family == "archive_index" || target.family == "archive_group") && rng.chance(1, 10) {
+                            mutate::archive_index_hole(&mut rng, seeds)
+                        } else if !mutate::field_table(target.family).is_empty() && rng.chance(1, 3) {
+                            mutate::fields_case(&mut rng, seeds, mutate::field_table(target.family))
+                        } else if target.family == "patch_index" && rng.chance(1, 4) {
+                            mutate::patch_index_inner_block(&mut rng, seeds)
                         } else {
                             Some(mutate::random_case(&mut rng, seeds, pool, target.text))
                         };
@@ -800,7 +827,14 @@ fn run(sh: &Shared, families: &Families) {
         if s.nontrivial == 0 {
             ctx.inconclusive(&format!("target {}: no non-trivial input was evaluated", t.name));
         }
+        if t.post_ops {
+            ctx.obs(&format!("post_parse_ops.{}", t.name), s.post_ops);
+            if s.post_ops_calls_mutants == 0 {
+                ctx.inconclusive(&format!("target {}: its post-parse operations never ran on a mutated input that the parser accepted", t.name));
+            }
+        }
     }
+    ctx.obs("post_parse_ops.total", total.post_ops);
     ctx.obs("inputs.total", total.inputs);
     ctx.obs("outcome.ok", total.ok);
     ctx.obs("outcome.err_past_magic", total.err_deep);
